@@ -9,6 +9,7 @@ import (
 
 	grpctest "github.com/hashicorp/go-plugin/test/grpc"
 	"google.golang.org/grpc"
+	"google.golang.org/grpc/keepalive"
 
 	"verif/engine/explore"
 	"verif/engine/vs"
@@ -116,6 +117,11 @@ func init() {
 						if f := ms(p["factory"]); f > 0 { // the accepting side needs this long between Accept and Serve (slow service set-up)
 							x.Pause(f)
 						}
+						if a := ms(p["maxage"]); a > 0 {
+							// the brokered server recycles its connections (GOAWAY after that age): the dialler's ClientConn then
+							// re-establishes its transport through the broker's dialer by itself
+							opts = append(opts, grpc.KeepaliveParams(keepalive.ServerParameters{MaxConnectionAge: a, MaxConnectionAgeGrace: time.Second}))
+						}
 						s := grpc.NewServer(opts...)
 						grpctest.RegisterPingPongServer(s, &ppServer{tag: tag})
 						sv.srv <- s
@@ -204,6 +210,12 @@ func init() {
 				}
 				pingAll(fmt.Sprintf("after establishment %d (%s)", i+1, e))
 			}
+			if r := ms(p["rest"]); r > 0 {
+				x.Pause(r)
+				pingAll(fmt.Sprintf("%v after the last establishment", r))
+				x.Pause(r)
+				pingAll(fmt.Sprintf("%v after the last establishment", 2*r))
+			}
 			x.Put("completed", true)
 		},
 		Check: func(x *vs.Exec, p explore.Params) {
@@ -287,6 +299,11 @@ func init() {
 				// the second connection long after the first (past every 5 s timer of the broker)
 				for _, a := range []string{"pA0", "hA0", "pD1000", "hD0"} {
 					out = append(out, explore.Params{"seq": a, "redial": "6000"})
+				}
+			case "recycled":
+				// brokered servers that recycle their connections after 6 s; the connections are used again 9 s and 18 s later
+				for _, a := range []string{"pA0", "hA0", "pD0", "hD0", "pA0,hA0", "hA0,pA0"} {
+					out = append(out, explore.Params{"seq": a, "maxage": "6000", "rest": "9000"})
 				}
 			case "slow-factory":
 				// the accepting side starts serving 2.5 s / 7 s after it accepted the id (the dialled stream has been waiting)
